@@ -92,6 +92,7 @@ type extOp struct {
 	Dup     bool // register under the shared name "x/dup" instead of a fresh one
 	AliasBuiltin bool // the first alias is "text/html", a name a built-in format already carries
 	ExtXML       bool // the file extension is ".xml", which a built-in format already uses
+	NoExt        bool // registered without a file extension ("", as several built-in formats are)
 	Same    bool // register under the MIME string of the attachment point (new extension only, like .aaf under application/octet-stream's namesake)
 }
 
@@ -177,6 +178,9 @@ func (t *treeModel) apply(op extOp) {
 	ext := fmt.Sprintf(".e%d", k+1)
 	if op.ExtXML {
 		ext = ".xml"
+	}
+	if op.NoExt {
+		ext = ""
 	}
 	backing := make([]string, op.Aliases+2)
 	for a := 0; a < op.Aliases; a++ {
